@@ -226,14 +226,22 @@ func c06FloodUDP(c *core.Ctx, k c06ProtoCase) {
 	}
 	var real []res
 	var pos []int
+	origHost := ""
 	present := func(label string, wantReply bool) {
 		c0 := waitQuiet(2 * time.Second)
 		w.Net.Lock()
 		dg0 := len(w.Net.Datagrams)
 		w.Net.Unlock()
-		pc, err := w.Net.ListenPacket(context.Background(), "udp", "", "")
+		laddr := ""
+		if origHost != "" {
+			laddr = origHost + ":0" // the copies come from the original sender's HOST and another port
+		}
+		pc, err := w.Net.ListenPacket(context.Background(), "udp", laddr, "")
 		if err != nil {
 			return
+		}
+		if origHost == "" {
+			origHost, _, _ = net.SplitHostPort(pc.LocalAddr().String())
 		}
 		defer pc.Close()
 		now := time.Since(t0).Nanoseconds()
@@ -310,7 +318,8 @@ func c06RotationUDP(c *core.Ctx, k c06ProtoCase) bool {
 	r := rand.New(rand.NewSource(k.Seed))
 	data, tok, _ := buildDatagram(r, hashedOf("alice", "alice-secret"), 2, 1000+r.Uint32()%100000, 20, 0, 4, 0, 0)
 	pa, _ := w.Net.ListenPacket(context.Background(), "udp", "", "")
-	pb, _ := w.Net.ListenPacket(context.Background(), "udp", "", "")
+	hostA, _, _ := net.SplitHostPort(pa.LocalAddr().String())
+	pb, _ := w.Net.ListenPacket(context.Background(), "udp", hostA+":0", "") // B: A's host, another port
 	defer pa.Close()
 	defer pb.Close()
 	srv := &net.UDPAddr{IP: net.IPv4(10, 8, 0, 1), Port: 8964}
